@@ -49,7 +49,7 @@ ASSUMPTIONS = [
     'are only bit-compared, not accuracy-checked',
     'modelled by hand and tied by differential execution: ref_search.c completely except ref_search_selection '
     '(MPI bisection), ref_search_dist3 (unused Ericson variant), ref_search_depth/stats/tec (diagnostics); '
-    'ref_node_bounding_sphere_xyz; the insertion loop of ref_phys_wall_distance with the permutation as input '
+    'ref_node_bounding_sphere_xyz and ref_node_bounding_sphere (ops bsphere, bspheren); the insertion loop of ref_phys_wall_distance with the permutation as input '
     '(op wallbuild; ref_sort_shuffle uses rand(): the theorems quantify over every permutation instead) and the '
     'whole serial ref_phys_wall_distance incl. ref_phys_local_wall for edg/tri walls selected by the bc dict '
     '(op walldist; the Float model inserts in index order - agreement of the bits with the C, which inserts in '
